@@ -97,6 +97,9 @@ def evaluate(case: Case, spec: SemSpec, tier: str = "quick", opt_timeout: float 
     if astutil.may_ground_infinitely(prg):
         out.status, out.reason = "discard", "source_possibly_infinite"
         return out
+    if astutil.gringo_scope_quirk(prg):
+        out.status, out.reason = "discard", "gringo_scope_quirk"
+        return out
     g = oracle.grounds(case.src, "", case.consts)
     if g.status != "ok":
         out.status, out.reason = "discard", "source_rejected"
@@ -155,6 +158,7 @@ def evaluate(case: Case, spec: SemSpec, tier: str = "quick", opt_timeout: float 
                     "kind": "result_rejected",
                     "detail": b.error_text(),
                     "instance": inst,
+                    "result_text": opt.text,
                     "attribution": attribute(opt, inst, case.consts, in_sigs | out_sigs, spec.costs, spec.bijection, limit),
                 }
                 return out
@@ -171,6 +175,7 @@ def evaluate(case: Case, spec: SemSpec, tier: str = "quick", opt_timeout: float 
                 "kind": diff.kind,
                 "detail": diff.detail,
                 "instance": inst,
+                "result_text": opt.text,
                 "attribution": attribute(opt, inst, case.consts, in_sigs | out_sigs, spec.costs, spec.bijection, limit),
             }
             return out
